@@ -5,8 +5,8 @@ from .. import common as C
 from .. import schemarun as R
 
 LEVEL = "proof"
-N = {"quick": 24000, "thorough": 200000}
-NF = {"quick": 14000, "thorough": 120000}      # single-fault cases (lib/focusgen.py)
+N = {"quick": 24000, "thorough": 150000}
+NF = {"quick": 14000, "thorough": 80000}      # single-fault cases (lib/focusgen.py)
 FINDING_CLASSES = (1, 2, 3, 4, 5, 6)
 
 
